@@ -197,6 +197,11 @@ class ProgGen(object):
                 items.append(('b', n))
                 ptext += '#%d#' % n
                 self.features.add('hash-brace')
+            elif k < 0.72:
+                # a blank as delimiter: the argument is everything up to the next blank (at brace level 0)
+                items.append(('d', n, ' '))
+                ptext += '#%d ' % n
+                self.features.add('blank-delimited')
             else:
                 d = r.choice(DELIMS)
                 if r.random() < 0.2:
@@ -365,6 +370,9 @@ class ProgGen(object):
                     args += it[1]
                 elif it[0] == 'u':
                     args += self.undelimited_arg(nparams, depth, callees)
+                elif it[0] == 'd' and it[2] == ' ':
+                    # (no blank inside the argument except in braces)
+                    args += self.marker() + ('{' + self.marker() + ' ' + self.marker() + '}' if r.random() < 0.3 else '') + ' '
                 elif it[0] == 'd':
                     content = self.arg_content(nparams, depth, callees, plain=True)
                     if r.random() < 0.2 and not it[2].startswith('\\'):
